@@ -154,3 +154,8 @@ def nontrivial(case, obs):
         if t in ('setattr', 'set', 'rawupdate', 'syncupdate', 'sync') and info['ok']:
             return True
     return False
+
+
+def shrink(case, run):
+    import sys
+    return L.shrink(sys.modules[__name__], case, run)
